@@ -41,14 +41,32 @@ def san(s):
     return re.sub(r"[^A-Za-z0-9_.-]+", "_", s)[:150]
 
 
+_REPLAY_CACHE = {}
+
+
 def run_replay(path):
+    # a scenario-sweep script shared by several obligations (no counter-model used) is run once per check
+    try:
+        spec = json.load(open(path))
+        key = spec.get("replay", {}).get("script") if "MODEL" not in (spec.get("replay", {}).get("script") or "MODEL") else None
+    except Exception:
+        key = None
+    if key is not None and key in _REPLAY_CACHE:
+        return _REPLAY_CACHE[key]
+    r = _run_replay(path)
+    if key is not None:
+        _REPLAY_CACHE[key] = r
+    return r
+
+
+def _run_replay(path):
     env = dict(os.environ)
     env["PYVC_REPO"] = source.REPO
     env["PYTHONPATH"] = source.REPO + os.pathsep + ROOT
     env.setdefault("PYTHONDONTWRITEBYTECODE", "1")
     try:
         p = subprocess.run([VENV_PY, os.path.join(ROOT, "pyvc", "replay_host.py"), path], capture_output=True,
-                           text=True, timeout=300, env=env)
+                           text=True, timeout=1800, env=env)
         return p.returncode, (p.stdout + p.stderr)[-3000:]
     except subprocess.TimeoutExpired:
         return 3, "replay timed out"
@@ -313,7 +331,7 @@ def check(pid, tier="quick", seed=0, jobs=None, only=None, verbose=False):
     return exit_code
 
 
-LEVELS = {"C15": "exploration", "C18": "exploration"}
+LEVELS = {"C15": "exploration", "C18": "exploration", "C09": "exploration"}
 
 
 def _z3v():
